@@ -61,6 +61,25 @@ func runC12InBubble(c c02Case) (out kit.Outcome) {
 	x := &evExec{w: w}
 	kind := c.Stack.Kind
 	maxBacklog := c.Stack.effBacklog()
+	// "every caller that is granted, times out or is cancelled has left the backlog by the time its Acquire
+	// returns": looked at from inside the returning caller, under a cooperative schedule (nothing else runs
+	// between the return and the look): the backlog may list at most the OTHER callers still inside Acquire.
+	var stillListed string
+	if sc != nil && st.queue != nil && len(c.Yields) > 0 {
+		w.atReturn = func(me *vtCaller, ok bool) {
+			others := 0
+			w.mu.Lock()
+			for _, o := range w.callers {
+				if o != me && o.Started && !o.Done {
+					others++
+				}
+			}
+			w.mu.Unlock()
+			if n := st.queue.VerifBacklogLen(); n > others && stillListed == "" {
+				stillListed = fmt.Sprintf("caller %d returned from Acquire (ok=%v) while the backlog still holds %d element(s) and only %d other caller(s) are inside Acquire; points %v", me.ID, ok, n, others, sc.Trace)
+			}
+		}
+	}
 	fail := func(o kit.Outcome) kit.Outcome {
 		w.unwind(c.Stack.effTimeout() + 2*time.Second)
 		w.flush()
@@ -111,6 +130,9 @@ func runC12InBubble(c c02Case) (out kit.Outcome) {
 			}
 		}
 		x.do(e, false)
+		if stillListed != "" {
+			return fail(kit.Viol(kind+":listed-after-return", "event %d (%s): %s", i, e.K, stillListed))
+		}
 		if o := check(fmt.Sprintf("after event %d (%s)", i, e.K)); o != nil {
 			return fail(*o)
 		}
